@@ -1,16 +1,14 @@
 CONSTANTS
   Keys <- KeysFull
-  GScalars <- ScalarsSmall
-  MaxDepth = 1
-  MaxNodes = 1
-  Bases <- BasesFull
-  MaxFaults = 1
+  GScalars <- ScalarsFull
+  MaxDepth = 3
+  MaxNodes = 3
+  Bases <- NoBases
+  MaxFaults = 0
   RefNames <- RefNamesDef
   DropRule = ""
-  Mode = "faults"
+  Mode = "grammar"
 SPECIFICATION Spec
-
-
 
 
 
